@@ -1,5 +1,6 @@
 import Girc.Drv.PureOps
 import Girc.Model.Run
+import Girc.Model.Sts
 namespace Girc.Drv
 open Girc Girc.Model
 
@@ -69,6 +70,23 @@ def handleRun (op : String) (args : List String) : Option String :=
     match runSteps cfg (fun _ => true) steps {} [] with
     | .ok (r, _) => pure (toString (maxEventLength cfg r.cs.st))
     | .error f => pure (showFault f)
+  | "sts.onack", [tls, port, dur, advert] => do
+    -- stored policy (port, duration), connection kind, advertised value "k=v,k=v" -> new policy + action
+    let port ← port.toInt?; let dur ← dur.toInt?
+    let adv ← arg advert
+    let v : CapVal := (AMap.get? (parseCap (sSts ++ [0x3D] ++ adv)) sSts).getD none
+    let v := if adv.isEmpty then none else v
+    let cfg : Cfg := { nick := [], tlsActive := tls = "1" }
+    let (s, act) := stsOnAck cfg { upgradePort := port, persistenceDuration := dur } v
+    pure s!"{s.upgradePort} {s.persistenceDuration} {bl s.preload} {bl s.beginUpgrade} {match act with | .continue_ => "continue" | .abort => "abort" | .upgrade => "upgrade"}"
+  | "sts.plan", [cp, ssl, port] => do
+    let cp ← cp.toInt?; let port ← port.toInt?
+    let (p, t) := planDial cp (ssl = "1") { upgradePort := port }
+    pure s!"{p} {bl t}"
+  | "sts.dialfail", [nofb, expired, port, dur] => do
+    let port ← port.toInt?; let dur ← dur.toInt?
+    let (s, e) := onDialFail (nofb = "1") (expired = "1") { upgradePort := port, persistenceDuration := dur }
+    pure s!"{s.upgradePort} {s.persistenceDuration} {match e with | .plain => "plain" | .stsUpgradeFailed => "sts"}"
   | "parsecap", [a] => do
     let s ← arg a
     let m := parseCap s
